@@ -249,7 +249,7 @@ theorem rt_lslice (t : Ty) (hwf : (Ty.lslice t).wf) (hs : Ty.rtShape false t) (i
     simp only [List.nil_append] at he
     rw [he] at hsz ⊢
     simp only [Ty.wf] at hwf
-    obtain ⟨hwft, hwt, hmap⟩ := hwf
+    obtain ⟨hwft, hwt, hmap, _⟩ := hwf
     simp only [Ty.hasTy] at hty
     generalize hE : (vs.flatMap fun v => appendVarUint (t.app v []).length ++ t.app v []) = E at hsz ⊢
     have hcnt : vs.length ≤ E.length := by
@@ -446,7 +446,7 @@ theorem rtField_pslice (t : Ty) (hwf : (Ty.pslice t).wf) (hs : Ty.rtShape false 
     simp only [Ty.wf] at hwf
     simp only [Ty.hasTy] at hty
     simp only [Ty.wt] at hsz hf hrd ⊢
-    have := pslice_loop t hwf.1 hs hwf.2.1 hwf.2.2 ih i hi rd put hrd vs [] fuel rest off hty hsz hf
+    have := pslice_loop t hwf.1 hs hwf.2.1 hwf.2.2.1 ih i hi rd put hrd vs [] fuel rest off hty hsz hf
     simp only [Ty.zero, norm_pslice]
     simpa using this
   | _ => simp [Ty.hasTy] at hty
